@@ -62,7 +62,9 @@ def ls_add(ls, lock, mode):
 def ls_remove(ls, lock):
     d = {l: (m, c) for l, m, c in ls}
     m, c = d[lock]
-    if c > 1:
+    if c >= 3:
+        pass            # saturated ("many", only after a leak inside a loop): stays saturated
+    elif c > 1:
         d[lock] = (m, c - 1)
     else:
         del d[lock]
